@@ -195,7 +195,7 @@ def maskAssign (o : Nat) (key : String) (v : Val) (t : Int) : M Unit := do
   let mask := (arrVal s' ta').data.map (fun c => c.num? == some (t : Rat))
   assign a { pos := maskSel mask.length mask, view := false, scalar := false, mask := true } v
 
-/-- `atoms.prop_atype(key, value, atype=t)` is: (for a NEW key) `view[key] = zeros_like(value)`, then the
+/-- `atoms.prop_atype(key, value, atype=t)` is: (for a NEW key) `view[key] = np.zeros((natoms,) + np.shape(value))`, then the
     `atype ≥ 1` guard, then the boolean-mask assignment `view[key][atype == t] = value` — provided `t` is one of
     the atom types (otherwise it is refused, see the definition). -/
 theorem propAtype_some_decomp (o : Nat) (key : String) (v : Val) (t : Int) (s : State) (ta : Arr) (nt : Nat)
@@ -204,7 +204,7 @@ theorem propAtype_some_decomp (o : Nat) (key : String) (v : Val) (t : Int) (s : 
     propAtype o key v (some t) s =
       ((match (s.obj o).find key with
         | some _ => pure ()
-        | none => viewSet o key (.lit (zerosLike v)) : M Unit) >>= fun _ =>
+        | none => viewSet o key (.lit (zerosRows (s.obj o).natoms v)) : M Unit) >>= fun _ =>
        atypeGuard key v >>= fun _ => maskAssign o key v t) s := by
   unfold propAtype
   show M.bind getS _ s = _
